@@ -40,7 +40,7 @@ impl Monitor for Mon {
         let before = std::mem::take(&mut self.before);
         self.before = w.reqs.iter().map(|r| (r.tx_times.len(), r.finals.len())).collect();
         let Some((rep, hist)) = rep else { return };
-        let replay = || json!({"kind": "history", "config": w.cfg.show(), "events": explore::show_history(hist), "observed": super::world::show_events(&st.obs.events)});
+        let replay = || explore::history_replay(w, hist, st.obs);
         if let CallRes::Panic(p) = &st.obs.res {
             rep.violate(format!("client-panics/{}", crate::util::panic_site(p)), p.clone(), replay());
             return;
